@@ -53,7 +53,7 @@ pub fn bytes_step(d: &mut Driver, ch: &mut dyn Chooser, i: usize, full: bool) {
             let (a, ca) = pick_idx(ch, len);
             let (e0, cb) = pick_idx(ch, len);
             let (a, e) = if a <= e0 { (a, e0) } else { (e0, a) };
-            let form = ch.choose(6);
+            let form = if ch.exhaustive() { (a * 7 + e + op) % 6 } else { ch.choose(6) };
             d.log(format!("slice B{sid} {a}..{e} form{form}"));
             let r = run(d, "slice", || match form {
                 0 => b.slice(a..e),
